@@ -5,3 +5,7 @@ Definition c12_verify := verify.
 Definition c12_lift_x := lift_x.
 Definition c12_pubkey := pubkey.
 Definition c12_pubkey_of_key := pubkey_of_key.
+(* steps of cross-function sequences (harness op "seq"): the ecmath functions other parts of the library call with
+   the full public point before / after BIP340 is used under the same key *)
+Definition c12_point_scalar_mul := point_scalar_mul.
+Definition c12_ecdsa_verify := Bits.Model.Ecmath.verify.
